@@ -47,6 +47,7 @@ pub fn type_of(e: &Expr, env: &VarEnv) -> Ty {
       Expr::BSetSingle(_) => Ty::BSetU8,
       Expr::CConst(_) | Expr::CTop | Expr::CBot => Ty::CPropU8,
       Expr::ProdOf(..) => Ty::ProdU32DualU32,
+      Expr::ProdFst(_) => Ty::U32,
       Expr::Cast(_, ty) => *ty,
       Expr::Cmp(..) | Expr::And(..) | Expr::Or(..) | Expr::Not(_) => Ty::Bool,
    }
@@ -246,6 +247,7 @@ pub fn pe(e: &Expr, env: &VarEnv) -> String {
       Expr::CTop => "::ascent::lattice::constant_propagation::ConstPropagation::<u8>::Top".into(),
       Expr::CBot => "::ascent::lattice::constant_propagation::ConstPropagation::<u8>::Bottom".into(),
       Expr::ProdOf(a, b) => format!("::vglue::HProd::new({}, {})", pe(a, env), pe(b, env)),
+      Expr::ProdFst(a) => format!("(({}).0.0.0)", pe(a, env)),
       Expr::Cast(a, ty) => format!("(({}) as {})", pe(a, env), ty.rust()),
       Expr::Cmp(op, a, b) => {
          let o = match op {
@@ -534,6 +536,7 @@ pub fn field_rels(prog: &Program) -> Vec<&RelDecl> {
 
 /// One module: the Ascent program (macro kind per `opts`) plus glue implementing `vrunner::Prog`.
 pub fn print_module(mod_name: &str, prog: &Program, opts: &PrintOpts, ast_json: &str, meta_json: &str) -> String {
+   let opts_json = serde_json_lite(opts);
    let mut s = String::new();
    let par = opts.kind.is_par();
    writeln!(s, "pub mod {mod_name} {{").unwrap();
@@ -664,6 +667,7 @@ pub fn print_module(mod_name: &str, prog: &Program, opts: &PrintOpts, ast_json: 
    }
    writeln!(s, "   pub const AST: &str = r########\"{ast_json}\"########;").unwrap();
    writeln!(s, "   pub const META: &str = r########\"{meta_json}\"########;").unwrap();
+   writeln!(s, "   pub const OPTS: &str = r########\"{opts_json}\"########;").unwrap();
    writeln!(s, "}}").unwrap();
    s
 }
@@ -707,4 +711,21 @@ pub fn program_text(prog: &Program, opts: &PrintOpts) -> String {
    }
    writeln!(s, "}}").unwrap();
    s
+}
+
+fn serde_json_lite(opts: &PrintOpts) -> String {
+   // PrintOpts only holds strings, booleans and small integers; rendered by hand to keep vcore free of serde_json
+   let strs = |v: &Vec<String>| format!("[{}]", v.iter().map(|s| format!("{s:?}")).collect::<Vec<_>>().join(","));
+   format!(
+      "{{\"kind\":\"{:?}\",\"attrs\":{},\"generic\":{},\"include_cut\":{},\"init_rels\":{},\"redeclare\":{}}}",
+      opts.kind,
+      strs(&opts.attrs),
+      opts.generic,
+      match opts.include_cut {
+         None => "null".to_string(),
+         Some((a, b)) => format!("[{a},{b}]"),
+      },
+      strs(&opts.init_rels),
+      strs(&opts.redeclare)
+   )
 }
